@@ -213,40 +213,80 @@ def run(prog: Program, chk: Check):
     # ---- S senders stamp it ----------------------------------------------------------------------------------------------------
     S = chk.rule("C13-S", "Client.send_message stamps header.version = msg_data.type_hash before the header is sent (legacy V1 path excepted)", 3,
                  "an unstamped header makes the receiver's sync check vacuous")
-    sm = prog.func(CLI, "Client.send_message")
-    g = C.build(sm.node)
-    data_p = [p for p in sm.params() if p != "self"][0]
-    sends = [n for n in g.nodes for c in node_calls(n) if is_method_call(c, "_sendall") and c.args]
-    if not sends:
-        raise AnalysisError("anchor vanished: _sendall in Client.send_message")
-    hsend = sends[0]
-    hc = [c for c in node_calls(hsend) if is_method_call(c, "_sendall")][0]
-    hv = path_of(hc.args[0])
+    cl = prog.cls(CLI, "Client")
+    builders = []
+    for f in cl.methods.values():
+        hv_ = [path_of(n.targets[0]) for n in walk_local(f.node) if isinstance(n, ast.Assign) and isinstance(n.value, ast.Call) and norm(n.value.func) in ("self._header_cls", "self.header_cls")]
+        if hv_ and any(is_method_call(c, "_sendall") and c.args and path_of(c.args[0]) == hv_[0] for c in calls_in(f.node)):
+            builders.append((f, hv_[0]))
+    if len(builders) < 2:
+        raise AnalysisError(f"anchor vanished: expected >= 2 header-building senders in Client, found {[f.qual for f, _ in builders]}")
+    stamping = set()
 
-    def is_stamp(n):
-        a = n.ast
-        return n.kind == "stmt" and isinstance(a, ast.Assign) and any(path_of(t) == f"{hv}.version" for t in a.targets) and norm(a.value) == f"{data_p}.type_hash"
+    def check_sender(f, hv):
+        """every transmission in f is preceded by header.version = <definition>.type_hash (legacy hasattr path excepted)"""
+        g = C.build(f.node)
+        data_p = [p for p in f.params() if p != "self"][0]
 
-    stamps = [n for n in g.nodes if is_stamp(n)]
-    # legacy path: inside `except AttributeError` under `not hasattr(msg_data, "type_hash")`
-    gs = flow.guard_states(g)
+        def is_stamp(n):
+            a_ = n.ast
+            return n.kind == "stmt" and isinstance(a_, ast.Assign) and any(path_of(t) == f"{hv}.version" for t in a_.targets) and norm(a_.value).endswith(".type_hash")
 
-    def legacy_edge(e):
-        return True
+        stamps = [n for n in g.nodes if is_stamp(n)]
+        sends = [n for n in g.nodes for c in node_calls(n) if is_method_call(c, "_sendall") and c.args and path_of(c.args[0]) == hv]
+        # delegation to another sender of this class counts as a transmission, judged by whether that sender stamps
+        deleg = [(n, c) for n in g.nodes for c in node_calls(n) if isinstance(c.func, ast.Attribute) and path_of(c.func.value) == "self" and c.func.attr in [b_.name for b_, _ in builders] and c.func.attr != f.name]
+        if not sends and not deleg:
+            S.bad(fkey(f, "transmits"), where(f), f"{f.qual} builds a header but never sends it")
+            return False
+        ok_all = True
+        if sends:
+            unst = flow.must_precede(g, stamps, sends)
+            if unst:
+                sids = {s_.id for s_ in stamps}
+                gs2 = flow.guard_states(g, edge_filter=lambda e: not (e.src in sids and e.kind != "exc"))
+                goals = [guards.parse(f"not hasattr({data_p}, 'type_hash')")]
+                # a signal type without a local definition has no hash to stamp: the UnknownMessageType handler path
+                bad = []
+                for sn in sends:
+                    for pth in gs2.at(sn):
+                        if not guards.satisfiable(pth):
+                            continue
+                        if any(guards.implies(pth, gl) for gl in goals):
+                            continue
+                        bad.append(pth)
+                # unstamped paths that run through an `except UnknownMessageType` handler are the documented "no local definition" case
+                if bad:
+                    via_handler = flow.reach(g, [g.entry.id], blocked=sids, follow=lambda e: True)
+                    handlers = [n for n in g.nodes if n.kind == "handler" and n.ast.type is not None and "UnknownMessageType" in norm(n.ast.type)]
+                    r_no_handler = flow.reach(g, [g.entry.id], blocked=sids | {h.id for h in handlers}, blocked_pass_exc=False) if handlers else via_handler
+                    if handlers and not any(sn.id in flow.reach(g, [g.entry.id], blocked=sids, follow=lambda e: e.dst not in {h.id for h in handlers}) for sn in sends):
+                        bad = []
+                S.decide(not bad and bool(stamps), fkey(f, "stamp-before-send"), where(f), "unstamped sends are exactly the documented no-definition paths (legacy V1 class / unknown signal type)",
+                         f"{f.qual}: the header can be sent without header.version = <definition>.type_hash on a path that is not the legacy / unknown-type path")
+                ok_all = ok_all and not bad and bool(stamps)
+            else:
+                S.decide(bool(stamps), fkey(f, "stamp-before-send"), where(f), "stamp dominates the send", f"{f.qual}: header.version is never stamped")
+                ok_all = ok_all and bool(stamps)
+        other = [n for n in g.nodes if n.kind == "stmt" and isinstance(n.ast, ast.Assign) and any(path_of(t) in (f"{hv}.version",) for t in n.ast.targets) and not is_stamp(n)]
+        late = [n for n in g.nodes if n.kind == "stmt" and isinstance(n.ast, ast.Assign) and any(path_of(t) == f"{hv}.reserved" for t in n.ast.targets)
+                and any(n.id in flow.reach(g, [s_.id]) for s_ in stamps)]
+        S.decide(not other and not late, fkey(f, "no-overwrite"), where(f), "nothing overwrites the stamped version", f"{f.qual}: the stamped version is overwritten: " + "; ".join(norm(n.ast) for n in other + late))
+        return ok_all and not other and not late, deleg
 
-    unst = flow.must_precede(g, stamps, [hsend])
-    if unst:
-        # acceptable only if every unstamped path passed the hasattr(...) == False test
-        gs2 = flow.guard_states(g, edge_filter=lambda e: not (e.src in {s.id for s in stamps} and e.kind != "exc"))
-        bad = guards.any_path_implies(gs2.at(hsend), guards.parse(f"not hasattr({data_p}, 'type_hash')"))
-        S.decide(not bad and bool(stamps), fkey(sm, "stamp-before-send"), where(sm), "unstamped paths are exactly the legacy `not hasattr(msg_data, 'type_hash')` path",
-                 "the header can be sent without header.version = msg_data.type_hash on a path that is not the legacy V1 path")
-    else:
-        S.decide(bool(stamps), fkey(sm, "stamp-before-send"), where(sm), "stamp dominates the send", "header.version is never stamped")
-    other = [n for n in g.nodes if n.kind == "stmt" and isinstance(n.ast, ast.Assign) and any(path_of(t) in (f"{hv}.version",) for t in n.ast.targets) and not is_stamp(n)]
-    late = [n for n in g.nodes if n.kind == "stmt" and isinstance(n.ast, ast.Assign) and any(path_of(t) == f"{hv}.reserved" for t in n.ast.targets)
-            and any(n.id in flow.reach(g, [s.id]) for s in stamps)]
-    S.decide(not other and not late, fkey(sm, "no-overwrite"), where(sm), "nothing overwrites the stamped version", "the stamped version is overwritten (version/reserved store after the stamp): " + "; ".join(norm(n.ast) for n in other + late))
+    results = {}
+    for f, hv in builders:
+        r = check_sender(f, hv)
+        results[f.name] = r
+    for f, hv in builders:
+        r = results[f.name]
+        if not isinstance(r, tuple):
+            continue
+        for n, c in r[1]:
+            callee_ok = isinstance(results.get(c.func.attr), tuple) and results[c.func.attr][0]
+            # the delegate stamps the hash of the class registered for the type id, which must be this message's class
+            S.decide(callee_ok, fkey(f, f"delegates:{norm(c)[:40]}"), where(f, c), "delegation to a sender that stamps the definition hash itself",
+                     f"{f.qual} hands the frame to {c.func.attr}(), which does not stamp a definition hash into the header")
     hd = prog.module("pyrtma.header")
     mh = hd.classes.get("MessageHeader")
     if mh is None:
